@@ -1,2 +1,2 @@
-(* C13: all proofs (re-exported); see LinAlgProofs, BasisProofs, ChebR, FitProofs, FitProofs2, FitGenProofs, TraceProofs. *)
-From PV Require Export C13.LinAlgProofs C13.BasisProofs C13.ChebR C13.FitProofs C13.FitProofs2 C13.FitGenProofs C13.TraceProofs.
+(* C13: all proofs (re-exported); see LinAlgProofs, BasisProofs, ChebR, FitProofs, FitProofs2, FitGenProofs, TraceProofs, GJProofs, FitTotal. *)
+From PV Require Export C13.LinAlgProofs C13.BasisProofs C13.ChebR C13.FitProofs C13.FitProofs2 C13.FitGenProofs C13.TraceProofs C13.GJProofs C13.FitTotal.
